@@ -467,7 +467,10 @@ TokensOf(fs, i) ==
           [] f.r = "depth" -> {"0", "1", "2", "2^31-1", "2^32-1"} \cup (IF f.k = "uv" THEN sym64 ELSE {"2^31"})
           [] f.r = "pt" -> {"0", "1", "2^32-1"} \cup sym64
           [] f.r = "first" -> {"zeros", "ones"}
+          \* ... and every value of the 3-bit face field (6 and 7 do not exist) at several levels, with a
+          \* well-formed level marker: "cell:<face>:<level>"
           [] f.r = "cellid" -> {"0", "1", "2^63", "2^64-1", "2^63-1"}
+                               \cup {"cell:" \o ToString(fc) \o ":" \o ToString(lv) : fc \in 0..7, lv \in {0, 1, 2, 15, 29, 30}}
           [] f.k = "f64" -> FloatToks
           [] OTHER -> {"0", "255"}
 
